@@ -216,7 +216,7 @@ func importResource(source map[string]any, target map[string]any, key string) er
 				delete(config, "content")
 			}
 			if conflict, ok := to[name]; ok {
-				if reflect.DeepEqual(a, conflict) {
+				if reflect.DeepEqual(declaration(a), declaration(conflict)) {
 					continue
 				}
 				return fmt.Errorf("%s.%s conflicts with imported resource", key, name)
@@ -226,4 +226,23 @@ func importResource(source map[string]any, target map[string]any, key string) er
 		target[key] = to
 	}
 	return nil
+}
+
+// declaration returns a resource as it was declared, without the value a secret sourced from an environment
+// variable was resolved to when the model declaring it was loaded (the other declaration may not be resolved yet)
+func declaration(resource any) any {
+	r, ok := resource.(map[string]any)
+	if !ok || r["environment"] == nil {
+		return resource
+	}
+	if _, ok := r[types.SecretConfigXValue]; !ok {
+		return resource
+	}
+	declared := make(map[string]any, len(r))
+	for k, v := range r {
+		if k != types.SecretConfigXValue {
+			declared[k] = v
+		}
+	}
+	return declared
 }
